@@ -54,6 +54,10 @@ def derived_hash_fields(F, reach):
     return out
 
 
+def _base(t):
+    return re.sub(r"<.*", "", strip_ty(t or ""))
+
+
 def sources(F, reach, extra_fns=(), iter_types=()):
     """[(root fn, kind, node, parent map)]: every hash-ordered iteration in reachable bodies"""
     from .p_parse import parent_map
@@ -65,12 +69,23 @@ def sources(F, reach, extra_fns=(), iter_types=()):
             continue
         pm = parent_map(f["hir"]["value"])
         loops = {id(lp["iter"]): lp for lp in for_loops(f["hir"]["value"])}
+        loop_cores = set()
+        for lp in loops.values():
+            c = peel(lp["iter"])
+            loop_cores.add(id(c))
+            if c.get("k") == "Call" and short(callee_of(c) or "") == "into_iter" and c.get("args"):
+                loop_cores.add(id(peel(c["args"][0])))
         for n in walk(f["hir"]["value"], pats=False):
             if n.get("k") == "MethodCall" and n["name"] in ITER_METHODS and (is_hash_ty(recv_ty(n)) or is_hash_ty(n["recv"].get("ty"))):
                 out.append((p, "method", n, pm))
             elif n.get("k") == "MethodCall" and n["name"] == "serialize" and HASH_TY.match(strip_ty(recv_ty(n)) or strip_ty(n["recv"].get("ty"))):
                 out.append((p, "serialize", n, pm))
             elif n.get("k") in ("MethodCall", "Call") and callee_of(n) in extra_fns:
+                out.append((p, "wrapper", n, pm))
+            elif n.get("k") in ("MethodCall", "Call") and _base(n.get("ty")) in iter_types and id(n) not in loop_cores and short(callee_of(n) or "") != "into_iter" \
+                    and not (n.get("k") == "MethodCall" and _base(recv_ty(n) or n["recv"].get("ty")) in iter_types):
+                # an expression that produces an iterator type whose `next` yields in hash order (`cfg.iter_nexts(x)`)
+                # and is consumed by adapters instead of a `for` loop
                 out.append((p, "wrapper", n, pm))
         for lp in loops.values():
             it = lp["iter"]
